@@ -229,6 +229,19 @@ func c09Doc(schema byte, x int64) []elem {
 		return []elem{{"x", i(x)}}
 	case 'B':
 		return []elem{{"x", i(x)}, {"y", i(7)}}
+	case 'Z': // no metric at all: such samples are accepted, flushed and read back like any others
+		return []elem{{"s", &val{T: 0x02, B: []byte(fmt.Sprintf("only text %d", x%3))}}}
+	case 'W': // wide: 80 int64 metrics, so that a chunk of 100 samples is well beyond 32 KiB
+		d := []elem{}
+		for k := int64(0); k < 80; k++ {
+			// splitmix64 of (x, k): incompressible deltas, or zlib would shrink the chunk to a few hundred bytes
+			v := uint64(x*80+k) + 0x9E3779B97F4A7C15
+			v = (v ^ (v >> 30)) * 0xBF58476D1CE4E5B9
+			v = (v ^ (v >> 27)) * 0x94D049BB133111EB
+			v ^= v >> 31
+			d = append(d, elem{fmt.Sprintf("m%02d", k), i(int64(v >> 1))})
+		}
+		return d
 	case 'C': // nested, a non-metric leaf, a datetime (gives the chunk its _id)
 		return []elem{{"t", &val{T: 0x09, I: 1600000000000 + x}}, {"d", &val{T: 0x03, Doc: []elem{{"q", &val{T: 0x08, Bool: x%2 == 0}}, {"s", &val{T: 0x02, B: []byte("s")}}}}}}
 	}
@@ -422,6 +435,44 @@ func init() {
 					id++
 					runC09(ho, id, c)
 				}
+			}
+		}
+		// samples without any metric, through every streaming entry point, fault-free and with one refused write
+		for _, kind := range kinds {
+			for _, n := range []int{1, 2, 3} {
+				for _, fs := range [][]fault{nil, {{kind: fNone}, {kind: fError}}} {
+					c := c09case{kind: kind, n: n, faults: fs, tag: "fault", retry: true}
+					for i := 0; i < 2*n+2; i++ {
+						c.ops = append(c.ops, hop{op: 'A', doc: c09Doc('Z', int64(i))})
+					}
+					if kind != "stream" {
+						c.ops = append(c.ops, hop{op: 'A', doc: c09Doc('A', 1)}, hop{op: 'A', doc: c09Doc('A', 2)})
+					}
+					c.ops = append(c.ops, hop{op: 'F'})
+					id++
+					nfault++
+					runC09(ho, id, c)
+				}
+			}
+		}
+		// chunks far larger than any internal block size: one flush is one Write, also when a write is refused
+		for _, kind := range []string{"stream", "wcoll"} {
+			for _, pos := range []int{-1, 0, 1} {
+				if !thorough && kind == "stream" {
+					continue // the observations after every operation (a Resolve of the open chunk) dominate the cost
+				}
+				c := c09case{kind: kind, n: 55, tag: "fault", retry: true}
+				if pos >= 0 {
+					c.faults = make([]fault, pos+1)
+					c.faults[pos] = fault{kind: fError}
+				}
+				for i := 0; i < 62; i++ {
+					c.ops = append(c.ops, hop{op: 'A', doc: c09Doc('W', int64(i))})
+				}
+				c.ops = append(c.ops, hop{op: 'F'})
+				id++
+				nfault++
+				runC09(ho, id, c)
 			}
 		}
 		// the D18 witness: the first Write consumes three bytes and fails, the retry and the flush succeed
